@@ -7,9 +7,9 @@ import hashlib, json, os, re
 import vlib
 
 KINDS = {"K_121": ["pub1", "pub2", "pub1"], "K_1s2": ["pub1", "sub", "pub2"], "K_0121": ["pub0", "pub1", "pub2", "pub1"],
-         "K_2210": ["pub2", "pub2", "pub1", "pub0"], "K_111": ["pub1", "pub1", "pub1"], "K_12": ["pub1", "pub2"]}
-CFGS = {"quick": ["MCClient.gen.cfg", "MCClient.gen.K_1s2.cfg", "MCClient.gen.K_0121.cfg"],
-        "thorough": ["MCClient.gen.cfg", "MCClient.gen.K_1s2.cfg", "MCClient.gen.K_0121.cfg", "MCClient.gen.K_2210.cfg", "MCClient.gen.f2.cfg"]}
+         "K_2210": ["pub2", "pub2", "pub1", "pub0"], "K_111": ["pub1", "pub1", "pub1"], "K_12": ["pub1", "pub2"], "K_u1s": ["unsub", "pub1", "sub"]}
+CFGS = {"quick": ["MCClient.gen.cfg", "MCClient.gen.K_1s2.cfg", "MCClient.gen.K_0121.cfg", "MCClient.gen.K_u1s.cfg"],
+        "thorough": ["MCClient.gen.cfg", "MCClient.gen.K_1s2.cfg", "MCClient.gen.K_0121.cfg", "MCClient.gen.K_u1s.cfg", "MCClient.gen.K_2210.cfg", "MCClient.gen.f2.cfg"]}
 
 
 def _kinds_of(cfg):
@@ -33,7 +33,7 @@ def to_script(name, hist, kinds):
             steps += [dict(op="conn_ok"), dict(op="wend", ec="ok")]       # TCP accept, then the CONNECT write goes through
         elif o == "call":
             k = kinds[h["id"] - 1]
-            if k == "sub": steps.append(dict(op="sub", id=10 + h["id"], topics=["l3/%d" % h["id"]]))
+            if k in ("sub", "unsub"): steps.append(dict(op=k, id=10 + h["id"], topics=["l3/%d" % h["id"]]))
             else: steps.append(dict(op="pub", id=10 + h["id"], qos=int(k[3]), msg="m%d" % h["id"]))
         elif o == "cancel_op":
             steps.append(dict(op="cancel_op", id=10 + h["id"], type="total"))
